@@ -62,10 +62,42 @@ def replay_prog(case):
     return src, res
 
 
+EXPR_ATOMS = {"one": "1", "x": "x", "ab": 'a["b"]', "a0": "a[0]", "adb": "a.b", "c": "c", "comma": ",", "or": "or", "and": "and", "eq": "==", "pipe": "|",
+              "dot": ".", "s": "'s'", "lp": "(", "rp": ")", "not": "not", "contains": "contains", "dots": "..", "colon": ":", "minus": "-"}
+EXPR_CARRIERS = {"when": "{% case x %}{% when @ %}hit{% else %}miss{% endcase %}", "if": "{% if @ %}hit{% else %}miss{% endif %}",
+                 "unless": "{% unless @ %}hit{% else %}miss{% endunless %}", "elsif": "{% if false %}{% elsif @ %}hit{% else %}miss{% endif %}",
+                 "out": "[{{ @ }}]", "assign": "{% assign z = @ %}[{{ z }}]", "for": "{% for i in @ %}{{ i }};{% endfor %}", "cycle": "{% cycle @ %}",
+                 "echo": "{% echo @ %}", "tern": "{{ 1 if @ else 2 }}"}
+EXPR_DATA = {"x": 5, "a": {"b": {"c": 5}, 0: {"c": 5}}, "c": 7}
+
+
+EXPR_PRE = {"none": "", "onecomma": "1 , ", "xor": "x or "}
+_WORD, _BRK, _SEP = ("x", "c"), ("ab", "a0"), ("comma", "or")
+
+
+def expr_source(cell):
+    return EXPR_CARRIERS[cell["carrier"]].replace("@", EXPR_PRE[cell.get("pre", "none")] + " ".join(EXPR_ATOMS[a] for a in cell["seq"]))
+
+
+def expr_class(cell):
+    """the input class of an expression cell, for signatures: in a when-list, the first joint that only strict mode refuses (a bracketed path
+    followed by a word, a dot not followed by a word) behind a separator; otherwise the cell itself"""
+    seq = cell["seq"]
+    if cell["carrier"] == "when":
+        for i in range(len(seq)):
+            joint = (seq[i] in _BRK and i + 1 < len(seq) and seq[i + 1] in _WORD + _BRK + ("adb",)) or \
+                    (seq[i] == "dot" and i > 0 and seq[i - 1] in _WORD + _BRK + ("adb",) and (i + 1 == len(seq) or seq[i + 1] not in _WORD))
+            if joint and (cell.get("pre", "none") != "none" or any(a in _SEP for a in seq[:i])):
+                return "when:strict-only-path-check-after-separator"
+    return f"{cell['carrier']}:{cell.get('pre', 'none')}:{' '.join(seq)}"
+
+
 def replay_seq(job):
     case, extra = job
     templates, data, eglob = None, {"v": "V"}, None
-    if "scope" in case:
+    if "expr" in case:
+        src, data, extra = expr_source(case["expr"]), EXPR_DATA, True
+    elif "scope" in case:
         from . import c14
         src, templates, data, kw, eglob = c14.concretize(case["scope"], extra)
         extra = True
@@ -161,6 +193,20 @@ def run(tier: str) -> int:
     if len(sc) > capS:
         sc = rnd.sample(sc, capS)
     jobs += [({"scope": c, "seq": ["scope-program"], "limit": 30}, i % 6) for i, c in enumerate(sc)]
+    # ---- C: malformed expressions inside well-formed markup (ExprTokens.tla); carriers that recover may leave them strict-clean ----
+    atoms = sorted(EXPR_ATOMS) if tier != "quick" else ["one", "x", "ab", "a0", "adb", "c", "comma", "or", "and", "eq", "pipe", "lp"]
+    try:
+        rex = run_tlc("ExprTokens", gen_cfg("cfg/ExprTokens.tmpl", dict(Atoms="{" + ", ".join(f'"{a}"' for a in atoms) + "}",
+                                                                       Carriers="{" + ", ".join(f'"{c}"' for c in sorted(EXPR_CARRIERS)) + "}", MaxLen=3), "c03e"),
+                      workers=1, timeout=3000)
+    finally:
+        cleanup_gen()
+    ck.tlc("ExprTokens", rex)
+    ex = rex.emitted
+    capE = 6000 if tier == "quick" else 90000
+    if len(ex) > capE:
+        ex = rnd.sample(ex, capE)
+    jobs += [({"expr": c, "seq": ["expr"], "limit": 30}, True) for c in ex]
     res = par.pmap(replay_seq, jobs, chunk=128)
     recs = [{"rel": "Modes", "strict": rec(o["strict"]), "lax": rec(o["lax"]), "warn": rec(o["warn"]), "warnings": o["warnings"]} for _, o in res]
     rej, rrel = tracecheck.relate(recs)
@@ -171,7 +217,12 @@ def run(tier: str) -> int:
         ck.validated()
         if idx in rejset:
             which = ("lax raises" if not o["lax"].startswith("ok") else "warn raises" if not o["warn"].startswith("ok")
+                     else "warning for a strict-clean template" if o["strict"].startswith("ok") and o["lax"] == o["strict"] == o["warn"]
                      else "output differs between modes" if o["strict"].startswith("ok") or o["warn"] != o["lax"] else "no warning for a suppressed error")
+            if "expr" in case:
+                ck.fail(f"Relations.tla!Modes rejected: {which}", {"source": src, "cell": case["expr"], "data": EXPR_DATA, "observed": o},
+                        sig=f"C:{which}:{expr_class(case['expr'])}")
+                continue
             ck.fail(f"Relations.tla!Modes rejected: {which}", {"source": src, "seq": case["seq"], "observed": o},
                     sig=f"B:{which}:{o['lax'] if not o['lax'].startswith('ok') else ''}:{' '.join(case['seq']) if len(case['seq']) <= 3 else ''}")
     ck.assumptions += ["what a lax/warn render keeps of a template WITH errors, the class of the strict error and the exact warning count are predicted by ErrorModes.tla but only recorded (differs_from_automaton_note), not judged: the statement does not fix them",
